@@ -6,7 +6,7 @@ An unmodelled callee raises Unsupported in the engine (check ends INCONCLUSIVE).
 """
 import re
 import z3
-from .engine import f_marker_status, f_dec_canon, f_uuid_nil
+from .engine import f_marker_status, f_dec_canon, f_uuid_nil, f_dec_scale, dec_T
 from .engine import (Adt, Ref, Cell, BoxCell, Opaque, Unsupported, clone, lit, lit_value, EMPTY, StrS, PANIC, some, NONE, ok, err, unit, U, Dec,
                      f_uuid_ok, f_uuid_hyph, f_dec_ok, f_dec_n, f_dec_d, f_addr_ok, f_marker_found, f_marker_dec, f_marker_type,
                      f_attr_ok, f_sv_ok, f_sv_maj, f_sv_min, f_sv_pat, f_sv_pre, f_numstr, strip_generics)
@@ -581,7 +581,14 @@ def dec(ex, v):
 
 def m_dec_from_str(ex, st, a, c, m):
     s = sval(ex, a[0])
-    return [(f_dec_ok(s), ok(Dec(f_dec_n(s), f_dec_d(s), False, s))), (z3.Not(f_dec_ok(s)), err(Adt('rust_decimal::Error', None, [])))]
+    sc = f_dec_scale(s)
+    k = len(str(dec_T())) - 1
+    fact = z3.Or(*[z3.And(sc == j, f_dec_n(s) % (10 ** (k - j)) == 0) for j in range(k + 1)])      # the text has sc <= k fractional digits
+    ex.set_bound(sc, 0, k)
+    if not hasattr(ex, 'scale_facts'):
+        ex.scale_facts = {}
+    ex.scale_facts[s.get_id()] = (s, fact)          # added to a path only when the path looks at the representation (scale / mantissa / rescale)
+    return [(f_dec_ok(s), ok(Dec(f_dec_n(s), f_dec_d(s), False, s, None, sc))), (z3.Not(f_dec_ok(s)), err(Adt('rust_decimal::Error', None, [])))]
 
 
 def _fits96(ex, n):
@@ -614,6 +621,20 @@ def _mul_exact_static(ex, x, y):
     return n is not None and d is not None and -TWO96 < n[0] and n[1] < TWO96 and d[1] <= 10 ** 28
 
 
+def dscale(x):
+    """rust_decimal's scale of the value (Int term) or None if not tracked"""
+    sc = x.fields[5] if len(x.fields) > 5 else None
+    if sc is None and z3.is_int_value(x.fields[1]) and x.fields[1].as_long() == 1 and not x.fields[2]:
+        return z3.IntVal(0)
+    return sc
+
+
+def _smax(a_, b_):
+    if a_ is None or b_ is None:
+        return None
+    return z3.simplify(z3.If(a_ >= b_, a_, b_))
+
+
 def m_dec_mul(ex, st, a, c, m):
     x, y = dec(ex, a[0]), dec(ex, a[1])
     inexact = bool(x.fields[2] or y.fields[2])
@@ -624,7 +645,8 @@ def m_dec_mul(ex, st, a, c, m):
         fu = u.fields[4] if len(u.fields) > 4 else None
         if fu is not None and fu[1] is None and z3.is_int_value(v.fields[1]) and v.fields[1].as_long() == 1 and not v.fields[2]:
             factors = (fu[0], v.fields[0], fu[2])
-    r = some(Dec(n, d, inexact, None, factors))
+    sx, sy = dscale(x), dscale(y)
+    r = some(Dec(n, d, inexact, None, factors, (z3.simplify(sx + sy) if sx is not None and sy is not None and not inexact else None)))
     if z3.is_app(n) and n.decl().kind() == z3.Z3_OP_MUL:
         ex.range_fact(st, n)
     if z3.is_app(d) and d.decl().kind() == z3.Z3_OP_MUL:
@@ -647,8 +669,8 @@ def m_dec_div(ex, st, a, c, m):
 def m_dec_sub(ex, st, a, c, m):
     x, y = dec(ex, a[0]), dec(ex, a[1])
     if z3.eq(x.fields[1], y.fields[1]):
-        return [(True, some(Dec(x.fields[0] - y.fields[0], x.fields[1], bool(x.fields[2] or y.fields[2]))))]
-    return [(True, some(Dec(x.fields[0] * y.fields[1] - y.fields[0] * x.fields[1], x.fields[1] * y.fields[1], bool(x.fields[2] or y.fields[2]))))]
+        return [(True, some(Dec(x.fields[0] - y.fields[0], x.fields[1], bool(x.fields[2] or y.fields[2]), None, None, _smax(dscale(x), dscale(y)))))]
+    return [(True, some(Dec(x.fields[0] * y.fields[1] - y.fields[0] * x.fields[1], x.fields[1] * y.fields[1], bool(x.fields[2] or y.fields[2]), None, None, _smax(dscale(x), dscale(y)))))]
 
 
 def m_dec_fract(ex, st, a, c, m):
@@ -657,7 +679,7 @@ def m_dec_fract(ex, st, a, c, m):
     if z3.is_int_value(d) and d.as_long() == 1:
         return [(True, Dec(z3.IntVal(0), z3.IntVal(1)))]
     if z3.is_int_value(d):
-        return [(n >= 0, Dec(n % d, d)), (n < 0, Opaque('OOB', 'fract of negative'))]
+        return [(n >= 0, Dec(n % d, d, False, None, None, dscale(x))), (n < 0, Opaque('OOB', 'fract of negative'))]
     q, r = ex.euclid(st, n, d)
     return [(n >= 0, Dec(r, d)), (n < 0, Opaque('OOB', 'fract of negative'))]
 
@@ -1258,9 +1280,9 @@ def m_dec_ceil(ex, st, a, c, m):
 def m_dec_add(ex, st, a, c, m):
     x, y = dec(ex, a[0]), dec(ex, a[1])
     if z3.eq(x.fields[1], y.fields[1]):
-        r = Dec(x.fields[0] + y.fields[0], x.fields[1], bool(x.fields[2] or y.fields[2]))
+        r = Dec(x.fields[0] + y.fields[0], x.fields[1], bool(x.fields[2] or y.fields[2]), None, None, _smax(dscale(x), dscale(y)))
     else:
-        r = Dec(x.fields[0] * y.fields[1] + y.fields[0] * x.fields[1], z3.simplify(x.fields[1] * y.fields[1]), bool(x.fields[2] or y.fields[2]))
+        r = Dec(x.fields[0] * y.fields[1] + y.fields[0] * x.fields[1], z3.simplify(x.fields[1] * y.fields[1]), bool(x.fields[2] or y.fields[2]), None, None, _smax(dscale(x), dscale(y)))
     return [(True, some(r) if 'checked' in c else r)]
 
 
@@ -1919,5 +1941,236 @@ RAW_MODELS[:0] = [
     (r'^core::str::<impl str>::contains$|^std::string::String::contains$', m_str_contains),
     (r'^core::str::<impl str>::starts_with$', m_str_starts), (r'^core::str::<impl str>::trim$', m_str_trim),
     (r'^has_coins$', m_has_coins),
+]
+MODELS = [(re.compile(p), f) for p, f in RAW_MODELS]
+
+
+# ------------------------------------------------------------------ iterator adapters whose closures fork (addr_validate, parse, ...): guarded alternatives
+ITER_ALT_CAP = 96
+
+
+def _closure_outs(ex, st, clo_text, clo, args):
+    r = ex.call_closure(st, clo_text, clo, args)
+    return [(True if c is True else c, v) for c, v in r]
+
+
+def _iter_alts(ex, st, it):
+    """-> [(cond, [items])]: every way the (possibly forking) closures of the adapter chain can turn out"""
+    if isinstance(it, list):
+        return [(True, list(it))]
+    if it.ty == 'Option':
+        return [(True, [it.fields[0]] if it.variant == 'Some' else [])]
+    if it.ty == 'Result':
+        return [(True, [it.fields[0]] if it.variant == 'Ok' else [])]
+    if it.ty == 'Iter':
+        return [(True, list(it.fields[0][it.fields[1]:]))]
+    if it.ty in ('MapIter', 'FilterMapIter', 'FlatMapIter', 'MapWhileIter'):
+        src, clo, clo_text = it.fields
+        out = []
+        for c0, items in _iter_alts(ex, st, src):
+            alts = [(c0, [], False)]           # (cond, produced, stopped)
+            for x in items:
+                nxt = []
+                for c1, got, stopped in alts:
+                    if stopped:
+                        nxt.append((c1, got, True))
+                        continue
+                    for c2, v in _closure_outs(ex, st, clo_text, clo, [x]):
+                        if isinstance(v, Opaque) and v.tag in ('PANIC', 'OOB'):
+                            raise Unsupported('panicking closure inside an iterator adapter')
+                        cc = c1 if c2 is True else (c2 if c1 is True else z3.And(c1, c2))
+                        if it.ty == 'MapIter':
+                            nxt.append((cc, got + [v], False))
+                        elif it.ty == 'FilterMapIter':
+                            nxt.append((cc, got + ([v.fields[0]] if v.variant == 'Some' else []), False))
+                        elif it.ty == 'FlatMapIter':
+                            if isinstance(v, list):
+                                nxt.append((cc, got + list(v), False))
+                            elif isinstance(v, Adt) and v.ty in ('Option', 'Result'):
+                                nxt.append((cc, got + ([v.fields[0]] if v.variant in ('Some', 'Ok') else []), False))
+                            else:
+                                raise Unsupported('flat_map over %r' % (v,))
+                        else:   # MapWhileIter
+                            nxt.append((cc, got + [v.fields[0]], False) if v.variant == 'Some' else (cc, got, True))
+                if len(nxt) > ITER_ALT_CAP:
+                    raise Unsupported('too many closure outcomes inside an iterator adapter')
+                alts = nxt
+            out += [(c, got) for c, got, _ in alts]
+        return out
+    if it.ty == 'FilterIter':
+        raise Unsupported('filter(..) consumed by something other than count()')
+    raise Unsupported('iterator ' + it.ty)
+
+
+def _iter_items(ex, st, it):          # single-alternative view used by the non-forking consumers
+    alts = _iter_alts(ex, st, it)
+    if len(alts) == 1:
+        return alts[0][1]
+    # merge scalar items position-wise when every alternative has the same length
+    n = {len(items) for _, items in alts}
+    if len(n) == 1:
+        merged = []
+        for k in range(n.pop()):
+            mv = _merge_scalar(ex, [(c, items[k]) for c, items in alts])
+            if mv is None:
+                raise Unsupported('forking closure in an iterator adapter (non-scalar items)')
+            merged.append(mv)
+        return merged
+    raise Unsupported('forking closure in an iterator adapter (varying length)')
+
+
+def m_iter_flat_map(ex, st, a, c, m):
+    return [(True, Adt('FlatMapIter', None, [a[0], a[1], ex.closure_text(c)]))]
+
+
+def m_collect(ex, st, a, c, m):
+    tail = c.split('collect', 1)[-1]
+    into_result = bool(re.search(r'^::<(std::result::)?(Std)?Result<|^::<Result<', tail))
+    into_option = bool(re.search(r'^::<(std::option::)?Option<', tail))
+    into_set = 'HashSet' in tail
+    outs = []
+    for cnd, items in _iter_alts(ex, st, a[0]):
+        if into_result or into_option:
+            good, bad = ('Ok', 'Err') if into_result else ('Some', 'None')
+            vals, failed = [], None
+            for v in items:
+                if v.variant == bad:
+                    failed = v
+                    break
+                vals.append(v.fields[0])
+            wrap = (lambda x: Adt('HashSet', None, [x])) if into_set else (lambda x: x)
+            if failed is not None:
+                outs.append((cnd, err(failed.fields[0]) if into_result else NONE()))
+            else:
+                outs.append((cnd, ok(wrap(vals)) if into_result else some(wrap(vals))))
+        else:
+            outs.append((cnd, Adt('HashSet', None, [items]) if into_set else items))
+    return outs
+
+
+def m_option_zip(ex, st, a, c, m):
+    x, y = a[0], a[1]
+    if x.variant == 'Some' and y.variant == 'Some':
+        return [(True, some(Adt('tuple', None, [x.fields[0], y.fields[0]])))]
+    return [(True, NONE())]
+
+
+f_strlen = z3.Function('strlen', StrS, z3.IntSort())
+
+
+def m_str_len(ex, st, a, c, m):
+    s_ = sval(ex, a[0])
+    fact = z3.And(f_strlen(s_) >= 0, (f_strlen(s_) == 0) == (s_ == EMPTY))
+    if not any(z3.eq(fact, p_) for p_ in st.pc):
+        st.pc.append(fact)
+    if z3.is_app(s_) and s_.decl().name() == 'uuid_hyph':
+        st.pc.append(f_strlen(s_) == 36)
+    return [(True, f_strlen(s_))]
+
+
+def m_dec_saturating_mul(ex, st, a, c, m):
+    outs = []
+    for cnd, v in m_dec_mul(ex, st, a, c, m):
+        outs.append((cnd, v.fields[0] if isinstance(v, Adt) and v.ty == 'Option' and v.variant == 'Some' else v))
+    return outs
+
+
+def m_unsigned_abs(ex, st, a, c, m):
+    v = a[0]
+    return [(True, z3.If(v >= 0, v, -v))]
+
+
+def m_vec_extend2(ex, st, a, c, m):
+    src = ex.deref(a[1])
+    items = _iter_items(ex, st, src) if isinstance(src, Adt) else list(src)
+    ex.deref(a[0]).extend(items)
+    return [(True, unit())]
+
+
+RAW_MODELS[:0] = [
+    (r'^<.* as Iterator>::flat_map$', m_iter_flat_map), (r'^<.* as Iterator>::collect$', m_collect),
+    (r'^std::option::Option::zip$', m_option_zip),
+    (r'^std::string::String::len$|^core::str::<impl str>::len$', m_str_len),
+    (r'^rust_decimal::arithmetic_impls::<impl rust_decimal::Decimal>::saturating_mul$', m_dec_saturating_mul),
+    (r'^core::num::<impl i128>::unsigned_abs$|^core::num::<impl i64>::unsigned_abs$', m_unsigned_abs),
+    (r'^std::vec::Vec::extend$|^<std::vec::Vec<.*> as Extend<.*>>::extend$', m_vec_extend2),
+]
+MODELS = [(re.compile(p), f) for p, f in RAW_MODELS]
+
+
+
+# ------------------------------------------------------------------ rust_decimal's own representation: scale / mantissa / rescale
+def _pow10_ite(e, lo, hi):
+    t = z3.IntVal(10 ** hi)
+    for k in range(hi - 1, lo - 1, -1):
+        t = z3.If(e == k, z3.IntVal(10 ** k), t)
+    return t
+
+
+def _need_scale_facts(ex, st, sc):
+    """the path is about to depend on the written scale of the decimal texts inside `sc`: assert their consistency facts"""
+    seen = []
+
+    def walk(t):
+        if z3.is_app(t):
+            if t.decl().name() == 'dec_scale':
+                seen.append(t.arg(0))
+            for ch in t.children():
+                walk(ch)
+    walk(sc)
+    for s_ in seen:
+        hit = getattr(ex, 'scale_facts', {}).get(s_.get_id())
+        if hit is not None and z3.eq(hit[0], s_) and not any(z3.eq(hit[1], p_) for p_ in st.pc):
+            st.pc.append(hit[1])
+
+
+def m_dec_scale(ex, st, a, c, m):
+    sc = dscale(dec(ex, a[0]))
+    if sc is None:
+        raise Unsupported('scale() of a value whose rust_decimal scale is not tracked')
+    _need_scale_facts(ex, st, sc)
+    return [(True, sc)]
+
+
+def m_dec_mantissa(ex, st, a, c, m):
+    x = dec(ex, a[0])
+    sc = dscale(x)
+    if sc is None or not z3.is_int_value(x.fields[1]):
+        raise Unsupported('mantissa() of a value whose rust_decimal scale is not tracked')
+    _need_scale_facts(ex, st, sc)
+    iv = ex.interval(sc)
+    lo, hi = (max(iv[0], 0), min(iv[1], 28)) if iv is not None else (0, 28)
+    return [(True, z3.simplify(x.fields[0] * _pow10_ite(sc, lo, hi) / x.fields[1]))]
+
+
+def m_dec_rescale(ex, st, a, c, m):
+    r = a[0]
+    x = ex.read(r.cell, r.path)
+    new = z3.simplify(a[1]) if isinstance(a[1], z3.ExprRef) else z3.IntVal(a[1])
+    n, d = x.fields[0], x.fields[1]
+    sc = dscale(x)
+    if sc is None or not z3.is_int_value(d) or x.fields[2]:
+        raise Unsupported('rescale of a value whose rust_decimal scale is not tracked')
+    _need_scale_facts(ex, st, sc)
+    k = len(str(d.as_long())) - 1
+    iv = ex.interval(new)
+    lo, hi = (max(iv[0], 0), min(iv[1], 28)) if iv is not None else (0, 28)
+    t = n                                        # new scale >= current scale (or >= k): value unchanged
+    for places in range(min(hi, k - 1), lo - 1, -1):
+        t = z3.If(z3.And(new == places, new < sc), _round_int(n, 10 ** (k - places), 'MidpointAwayFromZero'), t)
+    ex.write(r.cell, r.path, Dec(z3.simplify(t), d, False, None, None, new))
+    return [(n >= 0, unit()), (n < 0, Opaque('OOB', 'rescale of a negative value'))]
+
+
+def m_dec_new(ex, st, a, c, m):
+    num, sc = a[0], z3.simplify(a[1]) if isinstance(a[1], z3.ExprRef) else z3.IntVal(a[1])
+    if not z3.is_int_value(sc):
+        raise Unsupported('Decimal::new with a symbolic scale')
+    return [(True, Dec(num, z3.IntVal(10 ** sc.as_long()), False, None, None, sc))]
+
+
+RAW_MODELS[:0] = [
+    (r'^rust_decimal::Decimal::scale$', m_dec_scale), (r'^rust_decimal::Decimal::mantissa$', m_dec_mantissa),
+    (r'^rust_decimal::Decimal::rescale$', m_dec_rescale), (r'^rust_decimal::Decimal::new$', m_dec_new),
 ]
 MODELS = [(re.compile(p), f) for p, f in RAW_MODELS]
